@@ -218,7 +218,7 @@ pub fn spec_for(id: &str, tier: Tier, cfg: &Cfg) -> Spec {
         "C06" => Alpha::Ratio,
         "C13" => Alpha::FullBad,
         "C09" => Alpha::FullBad,
-        "C10" => Alpha::FullBad,
+        "C10" => Alpha::FullFewBad,
         _ => Alpha::Full,
     };
     // Non-closing configurations (orbits that never repeat) are limited by the horizon; they get
@@ -275,7 +275,7 @@ pub fn spec_for(id: &str, tier: Tier, cfg: &Cfg) -> Spec {
             _ => vec![],
         },
         final_layer_first_only: id == "C13",
-        sample_every: if id == "C10" { if q { 32 } else { 8 } } else { 0 },
+        sample_every: if id == "C10" { if q { 48 } else { 8 } } else { 0 },
     }
 }
 
@@ -382,7 +382,7 @@ fn merge(into: &mut Value, add: Value) {
     for k in ["outcomes", "found", "samples"] {
         let mut a = into[k].as_array().cloned().unwrap_or_default();
         let b = add[k].as_array().cloned().unwrap_or_default();
-        if k == "samples" && a.len() >= 2 {
+        if k == "samples" && a.len() >= 3 {
             continue;
         }
         if k == "outcomes" {
